@@ -138,7 +138,7 @@ pub fn check(ctx: &Ctx, input: &Input) -> CaseResult {
 fn run(ctx: &Ctx) {
     let plans = [GenPlan {
         gen: "exec",
-        cases: ctx.tier.pick(3000, 150_000),
+        cases: ctx.tier.pick(25_000, 400_000),
         min_len: 64,
         max_len: ctx.tier.pick(1500, 4000),
     }];
